@@ -116,6 +116,8 @@ def gen_forest(rng, shape=None, siblings=True):
     f = Forest(units)
     if rng.random() < 0.3:
         f.abbrev_decl_seed = rng.getrandbits(30)     # abbreviations declared out of code order: no view may depend on that
+    if rng.random() < 0.3:
+        f.abbrev_code_style = rng.choice(["high", "huge"])     # abbreviation codes that need two or three ULEB128 bytes
     return f
 
 
